@@ -177,40 +177,75 @@ func ruleWireFor(w *World, r *RuleResult) {
 		fn     string
 	}
 	var sites []site
+	seenSite := map[string]bool{}
 	for _, s := range m.states {
 		ps, _ := w.Paths(s)
 		for _, p := range ps {
 			for i := range p.Events {
 				e := &p.Events[i]
-				if e.Kind == "call" && e.Callee != nil && fnKey(e.Callee) == "fmt.Sprintf" && e.Args[0].Op == "str" && strings.Contains(e.Args[0].S, "__for") {
-					els := elementsOf(p, e.Args[1])
-					get := func(k int) string {
-						x := els[fmt.Sprintf("[%d]", k)]
-						if x == nil {
-							return "?"
+				var cands []*T
+				cands = append(cands, e.Val, e.Res)
+				cands = append(cands, e.Args...)
+				for _, cand := range cands {
+					if cand == nil {
+						continue
+					}
+					cand.walk(func(mt *T) bool {
+						format, margs, isM := mangleOf(p, mt)
+						if !isM {
+							return true
 						}
-						x = stripConv(x)
-						if x.Op == "iface" {
-							x = stripConv(x.A[0])
+						if seenSite[s.Name()+"/"+w.Pos(instrPosE(e))+"/"+format] {
+							return false
 						}
-						// role: a machine field, or an element of a machine field
-						if x.Op == "sel" && x.A[0].Op == "deref" {
-							return "field:" + x.S
-						}
-						if x.Op == "elem" {
-							if b := stripConv(x.A[0]); b.Op == "sel" {
-								return "elem-of:" + b.S
+						seenSite[s.Name()+"/"+w.Pos(instrPosE(e))+"/"+format] = true
+						get := func(k int) string {
+							if k >= len(margs) || margs[k] == nil {
+								return "?"
 							}
-							// the list was assigned to a field earlier on this path: name it by that field
-							for _, e2 := range p.Events {
-								if e2.Kind == "store" && e2.LV.Op == "sel" && e2.LV.A[0].Op == "deref" && e2.Val.Key() == x.A[0].Key() {
-									return "elem-of:" + e2.LV.S
+							x := margs[k]
+							x = stripConv(x)
+							if x.Op == "iface" {
+								x = stripConv(x.A[0])
+							}
+							// role: a machine field, or an element of a machine field
+							if x.Op == "sel" && x.A[0].Op == "deref" {
+								return "field:" + x.S
+							}
+							if x.Op == "elem" {
+								if b := stripConv(x.A[0]); b.Op == "sel" {
+									return "elem-of:" + b.S
+								}
+								// the list was assigned to a field earlier on this path: name it by that field
+								for _, e2 := range p.Events {
+									if e2.Kind == "store" && e2.LV.Op == "sel" && e2.LV.A[0].Op == "deref" && e2.Val.Key() == x.A[0].Key() {
+										return "elem-of:" + e2.LV.S
+									}
 								}
 							}
+							// a value the path has found to be a member of a machine list: that list's element
+							for _, cd := range p.Conds {
+								a := cd.Atom
+								if cd.Val && a.Op == "call" && strings.HasPrefix(a.S, "slices.Contains") && len(a.A) == 2 && sameTerm(a.A[1], x) {
+									if b := stripConv(a.A[0]); b.Op == "sel" && b.A[0].Op == "deref" {
+										return "elem-of:" + b.S
+									}
+								}
+								if cd.Val && a.Op == "eq" {
+									for k := 0; k < 2; k++ {
+										if o := stripConv(a.A[1-k]); sameTerm(a.A[k], x) && o.Op == "elem" {
+											if b := stripConv(o.A[0]); b.Op == "sel" && b.A[0].Op == "deref" {
+												return "elem-of:" + b.S
+											}
+										}
+									}
+								}
+							}
+							return stripEpoch(x).Key()
 						}
-						return stripEpoch(x).Key()
-					}
-					sites = append(sites, site{e.Args[0].S, get(0), get(1), w.Pos(instrPosE(e)), s.Name()})
+						sites = append(sites, site{format, get(0), get(1), w.Pos(instrPosE(e)), s.Name()})
+						return false
+					})
 				}
 			}
 		}
@@ -290,7 +325,7 @@ func ruleWireFor(w *World, r *RuleResult) {
 				if v, ok := sendOf(w, e); ok && v.Op == "struct" {
 					// a reference to a block label: the mangled name replaces a body token only under an exact
 					// comparison of that token's text with the label
-					if val := structField(v, "val"); val != nil && val.Op == "call" && val.S == "fmt.Sprintf" && len(val.A) > 0 && val.A[0].Op == "str" && strings.Contains(val.A[0].S, "__for") {
+					if val := structField(v, "val"); val != nil && isMangled(p, val) {
 						fromContent := false
 						for _, cd := range p.Conds {
 							if cd.Atom.contains(func(x *T) bool { return x.Op == "elem" && strings.Contains(stripConv(x.A[0]).Show(), "forContent") }) {
@@ -304,6 +339,9 @@ func ruleWireFor(w *World, r *RuleResult) {
 									(strings.Contains(a.A[0].Show(), "forContent") || strings.Contains(a.A[1].Show(), "forContent"))
 							}) || hasCond(p, func(a *T, vv bool) bool {
 								return a.Op == "lt" && !vv && a.A[0].Op == "call" && strings.HasPrefix(a.A[0].S, "slices.Index") // j := slices.Index(labels, tok.val); j >= 0
+							}) || hasCond(p, func(a *T, vv bool) bool {
+								return a.Op == "call" && vv && strings.HasPrefix(a.S, "slices.Contains") && len(a.A) == 2 &&
+									strings.Contains(a.A[0].Show(), "forLineLabels") && strings.Contains(a.A[1].Show(), "forContent")
 							})
 							d.add(exact, "label/exact-name", w.Pos(instrPosE(e)), "a body token is replaced by the mangled label only when its text equals the label exactly", "a body token is replaced by a mangled block label without an exact comparison of its text with the label (symbols are case sensitive)")
 						}
@@ -552,4 +590,61 @@ func ruleAliasBuf(w *World, r *RuleResult) {
 			r.ok(strings.TrimPrefix(k.typ, "*")+"."+k.name, "-", "handed to "+shared[k]+"; every reset installs a fresh slice")
 		}
 	}
+}
+
+// mangleOf: t builds a name out of two or more non-constant strings, one of
+// them a string field of the machine (the block's counter label) — by
+// Sprintf or by concatenation.  Both forms are reduced to a format with %s
+// holes and the list of arguments, so that sites written either way compare.
+func mangleOf(p *Path, t *T) (format string, args []*T, ok bool) {
+	t = stripConv(t)
+	switch {
+	case t.Op == "call" && t.S == "fmt.Sprintf" && len(t.A) == 2 && t.A[0].Op == "str":
+		format = strings.NewReplacer("%d", "%s", "%v", "%s").Replace(t.A[0].S)
+		els := elementsOf(p, t.A[1])
+		for k := 0; k < len(els); k++ {
+			x := els[fmt.Sprintf("[%d]", k)]
+			if x == nil {
+				return "", nil, false
+			}
+			args = append(args, x)
+		}
+	case t.Op == "cat":
+		var flat func(x *T)
+		flat = func(x *T) {
+			x = stripConv(x)
+			switch {
+			case x.Op == "cat":
+				flat(x.A[0])
+				flat(x.A[1])
+			case x.Op == "str":
+				format += x.S
+			default:
+				format += "%s"
+				args = append(args, x)
+			}
+		}
+		flat(t)
+	default:
+		return "", nil, false
+	}
+	if len(args) < 2 {
+		return "", nil, false
+	}
+	field := false
+	for _, a := range args {
+		a = stripConv(a)
+		if a.Op == "iface" {
+			a = stripConv(a.A[0])
+		}
+		if a.Op == "sel" && a.A[0].Op == "deref" && a.A[0].A[0].Op == "p" {
+			field = true
+		}
+	}
+	return format, args, field
+}
+
+func isMangled(p *Path, t *T) bool {
+	_, _, ok := mangleOf(p, t)
+	return ok
 }
